@@ -181,14 +181,15 @@ def main():
     st = statics_monitor(chk, quick)
     evals += st.get("shots", 0) + st.get("injected_shots", 0)
     chk.require(nconf >= 200, "only %d configurations explored" % nconf)
-    chk.require(kinds >= 10, "only %d history kinds exercised" % kinds)
+    chk.require(kinds >= 11, "only %d history kinds exercised" % kinds)
     chk.coverage.update({
         "evaluations": evals,
         "distinct_nontrivial": nconf * kinds,
         "rule": "for each configuration and tape T the canonical event (fresh generator, fresh event, first shot) is compared bit for bit with the "
                 "event after each history: k prior shots (1, 7, 1000), reused event object, event pre-filled with 0..150 junk particles, capacity "
                 "forced to 1..9/16/200, moved-from event, other instances (incl. failed and gA initialisations) created/shot/reset/destroyed in between, "
-                "reset()+identical re-configuration, initialisation with another deviate source, two live twins alternating, and a stream of >=300 tapes shot "
+                "reset()+identical re-configuration, an abandoned configuration (window + operation, never initialised or initialisation raised) followed by "
+                "reset() and the real configuration, initialisation with another deviate source, two live twins alternating, and a stream of >=300 tapes shot "
                 "forwards by one instance and backwards by its twin (every event of the stream compared); static-storage monitor: the "
                 "writable static storage of libBxDecay0.so (.data/.bss and this thread's TLS block) is snapshotted after every shot of a pool of steered "
                 "runs; words that change more than once are mutable static state; their observed end-of-shot values are injected before every pool shot and "
